@@ -82,3 +82,41 @@ def rules(t, *a, **kw):
     out = _rules_C19_w7(t, *a, **kw)
     out.append(W7.reply_behind_id_match(t, "C19.l"))
     return out
+
+
+def result_addr(t, rid):
+    """RESULT-ADDR: whatever process_packet_internal / handle_connection_request hand back for a datagram is addressed to that datagram's source:
+    every returned ServerResult is built in place (None / PacketToSend / ClientConnected / ClientDisconnected / Payload) with `addr` = the source
+    address parameter. A result obtained from another `&mut self` operation (disconnect(id), update_client(..)) carries the address of whatever
+    client that operation acted on: a datagram from an unproven address would make the server send to a third party."""
+    r = RuleResult(rid, "every ServerResult returned for a received datagram is built in place and addressed to the datagram's source (no result borrowed from an operation on another client)", floor=0)
+    def alts(o, d=0):
+        o = strip(o)
+        if isinstance(o, tuple) and o[0] == "phi" and d < 6:
+            for a in o[2]: yield from alts(a, d + 1)
+        else: yield o
+    for fnm in ("NetcodeServer::handle_connection_request", "NetcodeServer::process_packet_internal"):
+        f = t.fn(fnm)
+        for s in t.sites(f):
+            n = s.node
+            if n["k"] != "assign" or n["place"]["local"] != 0 or n["place"]["proj"]: continue
+            v = strip(t.stored(s))
+            if not (isinstance(v, tuple) and v[0] == "aggr" and v[2] == "Ok" and v[3]): continue
+            for a in alts(v[3][0]):
+                r.site(s, fmt(a)[:40])
+                if isinstance(a, tuple) and a[0] == "aggr" and a[1].endswith("ServerResult"):
+                    names = a[4] if len(a) > 4 else ()
+                    if "addr" in names:
+                        ad = strip(a[3][names.index("addr")])
+                        if not (isinstance(ad, tuple) and ad[0] == "param"): r.bad(f"{short(f.path)}|addr|{a[2]}", s, f"{a[2]} returned for a received datagram is addressed to {fmt(ad)[:60]}, not to the datagram's source address")
+                elif isinstance(a, tuple) and a[0] == "call" and re.search(r"NetcodeServer::handle_connection_request$", a[1]): pass
+                elif isinstance(a, tuple) and a[0] == "call" and re.search(r"NetcodeServer::", a[1]):
+                    r.bad(f"{short(f.path)}|borrowed|{method_of(a[1])}", s, f"the result returned for a received datagram is the result of {short(a[1])}(): its address (and datagram) belong to the client that operation acted on, not to the datagram's source - one datagram from an unproven address makes the server send to another address")
+    return r
+
+
+_rules_C19_w8 = rules
+def rules(t, *a, **kw):
+    out = _rules_C19_w8(t, *a, **kw)
+    out.append(result_addr(t, "C19.m"))
+    return out
